@@ -179,6 +179,21 @@ def gen_cases(rng, tier):
       node = {"k": "product", "a": [spec.gen_form(rng, positive=True), node]}
     rs = sorted(set([round(r0, 12), round(r0 * 0.5, 6), round(r0 * 1.5, 6), round(r0 + 0.25, 6), max(0.1, round(r0 - 0.25, 6))]))
     cases.append({"kind": "tree", "route": "potable" if i % 2 else "api", "node": node, "forms": [], "tables": [], "rs": rs, "nonpositive_base": repr(n_)})
+  # pow() whose base is identically ZERO over a stretch (a multi-range base switched off beyond r0, as.zero): with a
+  # positive exponent - constant and fractional, or itself a function of r - the energy is the constant 0 there, so the
+  # offered derivatives are 0 (not 0 * 0**-0.5, not log(0))
+  for i in range(12 if tier == "quick" else 90):
+    r0 = rng.choice([1.5, 2.0, 2.5])
+    base = {"k": "ranges", "parts": [[">", 0.0, {"k": "form", "name": "polynomial", "p": [4.0, -1.0, 0.05]}], [">=", r0, {"k": "form", "name": "zero", "p": []}]]}
+    if i % 4 == 3:
+      base = {"k": "form", "name": "zero", "p": []}
+    expo = [{"k": "form", "name": "constant", "p": [0.5]}, {"k": "form", "name": "constant", "p": [1.5]}, {"k": "form", "name": "polynomial", "p": [1.0, 1.0]},
+            {"k": "form", "name": "constant", "p": [2.5]}, {"k": "form", "name": "polynomial", "p": [0.5, 0.25]}, {"k": "form", "name": "constant", "p": [0.25]}][i % 6]
+    node = {"k": "pow", "a": [base, expo]}
+    if (i // 6) % 2 == 1:
+      node = {"k": "sum", "a": [node, spec.gen_form(rng, rmax=1.0)]}
+    rs = sorted(set([round(r0 + 0.25, 6), round(r0 + 1.0, 6), round(r0 * 2, 6), 0.5, 1.0]))
+    cases.append({"kind": "tree", "route": "potable" if i % 2 else "api", "node": node, "forms": [], "tables": [], "rs": rs, "zero_base_stretch": 1})
   # per-form sweeps (incl. heavy ZBL at large r and r = 0 for regular forms)
   per = 4 if tier == "quick" else 40
   for name in ALLFORMS:
@@ -300,6 +315,8 @@ def run_case(case, ctx):
   ctx.cls("all_analytic" if o.analytic else "has_numeric_component")
   if case.get("nonpositive_base"):
     ctx.cls("pow_constant_exponent_nonpositive_base:" + case["nonpositive_base"])
+  if case.get("zero_base_stretch"):
+    ctx.cls("pow_base_identically_zero_over_a_stretch")
   if case.get("int_exponent"):
     ctx.cls("pow_whole_number_exponent:" + case["int_exponent"])
   if case.get("zero_factor"):
